@@ -258,10 +258,15 @@ def parser_wiring(rep, prog, rule):
                 pself.value(interp, p.args[2], inp)
                 return v
             if k == "opt":
-                inner = gram.strip(p.args[0])
-                if inner.kind in ("lit", "prim", "take_while", "alt"):
-                    return NONE
-                return some(pself.value(interp, p.args[0], inp))
+                return some(pself.value(interp, p.args[0], inp))          # the path on which every part is present
+            if k == "alt":
+                return pself.value(interp, p.args[0], inp)                # … written as the first alternative spells it
+            if k in ("value",):
+                pself.value(interp, p.args[0], inp)
+                return p.extra
+            if k == "void":
+                pself.value(interp, p.args[0], inp)
+                return ()
             return Tok("T", "text", "", dom="text")
 
         def stream_strip_prefix(pself, interp, tok_, pat, info):
